@@ -8,5 +8,6 @@ CONSTANTS
  FixDetector = TRUE
  FixNifty = FALSE
  AtomicAdopt = TRUE
+ RefreshExpected = TRUE
 INVARIANT FreedAtExit
 CHECK_DEADLOCK FALSE
